@@ -8,6 +8,25 @@ from pathlib import Path
 V = Path("/verif")
 
 
+NOTES = """Notes on 9.2. The four mutations that no check reports were examined and are *not* violations of the
+property they were aimed at (equivalent or irrelevant mutants, kept in the table for honesty):
+`c01-greedy-without-cap` breaks only the bound (caught by C02), conservation is unaffected;
+`c01-reserved-without-max` changes how the shares are split between groups, not their sum (after the
+C01 repairs the remainder is computed from what was actually handed out); `c02-no-battery-clip-of-inverter-incl`
+is masked by the set-level `min(sum of inverter bounds, battery bound)`; `c03-skip-adjust-exclusion` is
+masked by `clamp_to_bounds`, which re-derives the overlap from the un-adjusted interval.
+`c10-swallow-cancel` spins without ever yielding to the loop: it is reported as a VIOLATION through the
+probe's re-invocation counter (a logical-step verdict), but the run takes minutes because every case
+first has to hit the wall-clock watchdog that ends the shard.
+Monitors strengthened because of this loop: C13 got overflow rounds (an `isinf` result emitted as a value
+was invisible before: `c13-only-isnan`), C09 got single-slot reads at unaligned timestamps (seed C09-B),
+C15 got concurrent PV requests on disjoint inverter sets (a race a seeding sub-agent noticed on the
+unchanged tree; repaired, section 8.2), and every virtual-time run got a livelock detector (loop iterations
+without virtual time advancing; `c19-revert-except-fix` and seed C19-B make the engine spin on a closed
+stream).
+"""
+
+
 def first_sentence(notes: str, variant: str) -> str:
     return ""
 
@@ -45,7 +64,7 @@ def main() -> None:
             "| seeded change | file(s) touched | quick check verdict | violation kind reported first | history |",
             "|---|---|---|---|---|", *rows, "",
             "### 9.2 My own deliberate breaks (DESIGN §6, `python -m vf.selftest`, quick tier at 30 % budget)", "",
-            "| mutation | file | verdict |", "|---|---|---|", *srows, ""]
+            "| mutation | file | verdict |", "|---|---|---|", *srows, "", NOTES]
     p = V / "DESIGN.md"
     s = p.read_text()
     i = s.find("## 9. Seeded changes and which checks catch them")
